@@ -43,6 +43,7 @@ type c14Req struct {
 	End     time.Duration
 	Verify  string // "" ok, else what is wrong
 	Timeout time.Duration
+	Encoded bool
 }
 
 var c14Mods = []string{"ps", "pgp", "jar", "cat", "pe-coff", "msi", "appmanifest", "vsix", "mach-o"}
@@ -293,7 +294,7 @@ func c14Isolation(r *core.Run, scheduled bool) {
 					if resp.DecodeErr != "" {
 						rq.Verify = fmt.Sprintf("response declared Content-Encoding %q but does not decode: %s", resp.Header.Get("Content-Encoding"), resp.DecodeErr)
 					} else if ce := resp.Header.Get("Content-Encoding"); ce != "" && ce != "identity" {
-						encoded++
+						rq.Encoded = true
 					}
 					if scheduled {
 						w.Logf("%s #%d %s %s key=%s -> %d", name, rq.ID, p.kind, p.c.Mod, p.key, rq.Status)
@@ -361,6 +362,11 @@ func c14Isolation(r *core.Run, scheduled bool) {
 		r.Probe("overlapping-requests")
 	}
 	r.Sample = map[string]any{"clients": nclients, "requests": len(reqs), "overlapping_pairs": overlap, "cache_s": cacheS, "rate_limit": rateLimit, "scheduled": scheduled}
+	for _, rq := range reqs {
+		if rq.Encoded {
+			encoded++
+		}
+	}
 	if encoded > 0 {
 		r.Probe("compressed-responses")
 	}
